@@ -142,8 +142,6 @@ def run(case, W):
     t = W.run(s, "plain")
     if not t.ok:
         return Result(violation=("crash", str(t.crash)))
-    if t.xviol:
-        return Result(violation=("world-invariant", str(t.xviol[:2])))
     if t.reason != "quiescent":
         return Result(violation=("no-quiescence", t.reason))
     m = ref.Model(s)
